@@ -146,6 +146,17 @@ func applyOp(op string, parent *forge.Node, ci int) bool {
 		if op == "inc-last-byte" {
 			n.Content[len(n.Content)-1]++
 		}
+	case "drop-last-2", "drop-last-3", "keep-first-2":
+		// shorter object identifiers / numbers: a parent arc, a prefix of a key identifier
+		k := map[string]int{"drop-last-2": 2, "drop-last-3": 3}[op]
+		if !leaf || len(n.Content) <= 2 || (k > 0 && len(n.Content) <= k) {
+			return false
+		}
+		if op == "keep-first-2" {
+			n.Content = n.Content[:2]
+		} else {
+			n.Content = n.Content[:len(n.Content)-k]
+		}
 	case "mid-percent", "mid-space", "mid-control", "mid-colon", "mid-at", "mid-bracket":
 		// characters that break the syntax of URIs, mail addresses and host names, put into the middle of a string
 		if !leaf || len(n.Content) < 4 {
